@@ -8,6 +8,9 @@ Tie, part 2 (hand model, Model/Store.lean): for bool, int (every size), str, byt
 and Decimal the model predicts (a) the value the writing session holds after the flush, (b) the storage class and
 content SQLite holds (read through a second, raw sqlite3 connection) and (c) the value a fresh session reads; all three
 are compared with real Pony.  float, timedelta, Json and the arrays have no model: they are observed by the oracle only.
+timedelta (a float number of days in SQLite) gets a dense stream over the whole range in which that representation is exact
+(|value| < 65536 days, both signs, non-zero microseconds, dense towards the top), both on the converter functions directly
+(150 000 / 1 000 000 values, py2sql compared bit for bit with the formula as coded) and through the database.
 
 Property oracle (every type, model or not): write in one db_session, flush, remember the value the program sees; read in a
 fresh db_session; the two must be equal and of the same type.  The same value used as a query parameter
@@ -317,7 +320,7 @@ def classify(c, v, seen, got):
         return 'sqlite-json-toplevel-bigint-becomes-float'
     if c.py_type is float and isinstance(seen, float) and seen != seen and got is None:
         return 'sqlite-float-nan-becomes-null'
-    if c.py_type is timedelta and isinstance(seen, timedelta) and isinstance(got, timedelta) and abs(seen.days) >= 65536 and abs(seen - got) < timedelta(seconds=1):
+    if c.py_type is timedelta and isinstance(seen, timedelta) and isinstance(got, timedelta) and abs(seen) >= timedelta(days=65536) and abs(seen - got) < timedelta(seconds=1):
         return 'sqlite-timedelta-float-days-loses-microseconds'
     return None
 
@@ -480,6 +483,95 @@ def witnesses(ctx, db, ents, rawcon):
             if not (isinstance(a, list) and r['pk'] in a):
                 ctx.violation('a date constant in a query does not match the stored value of the same date', inp, observed=a, expected='row %d' % r['pk'], key='date-constant-conversion:%r' % v)
 
+# ----------------------------------------------------------------------------------------------------------------
+# timedelta: dense stream over the whole range where float days are exact to the microsecond (|value| < 65536 days)
+# ----------------------------------------------------------------------------------------------------------------
+
+TD_EXACT_DAYS = 65536      # ulp of a double in [32768, 65536) is 2**-37 day = 0.63 us: ONE rounding of the final sum stays below half a microsecond
+
+def td_formula_as_coded(v):
+    """engine-side mirror of SQLiteTimedeltaConverter.py2sql as it is written: days + (seconds + microseconds / 1e6) / 86400.0
+    (three roundings, the last one at magnitude |days|).  Compared bit for bit with the real method on the whole stream."""
+    return v.days + (v.seconds + v.microseconds / 1000000.0) / 86400.0
+
+def td_values(rng, n):
+    """n timedeltas with |value| < 65536 days, both signs, mostly non-zero microseconds, dense near the top of the range"""
+    out = []
+    for d in (65535, -65536, 65534, -65535, 49152, -49153, 32768, -32769, 32767, -32768, 16384, -16385, 1, -1, 0):
+        for sec in (0, 1, 43199, 43200, 86399):
+            for us in (1, 2, 499999, 500000, 500001, 999998, 999999):
+                out.append(timedelta(days=d, seconds=sec, microseconds=us))
+    while len(out) < n:
+        r = rng.random()
+        if r < 0.35: d = rng.choice((1, -1)) * rng.randint(60000, 65535)
+        elif r < 0.70: d = rng.choice((1, -1)) * rng.randint(32768, 65535)
+        elif r < 0.85: d = rng.choice((1, -1)) * rng.randint(8192, 32767)
+        else: d = rng.randint(-65536, 65535)
+        if d < 0: d = max(d - (1 if rng.random() < 0.5 else 0), -65536)
+        us = rng.randrange(1, 10 ** 6) if rng.random() < 0.9 else rng.choice(US)
+        out.append(timedelta(days=d, seconds=rng.randrange(86400), microseconds=us))
+    return [v for v in out if abs(v) < timedelta(days=TD_EXACT_DAYS)]
+
+def td_batch(ctx, E, values, what):
+    """real property on a batch: write + flush in one session, read in a fresh one and through a query; -> list of (v, seen, got, via_query)"""
+    with db_session:
+        objs = [E(v=v) for v in values]
+        flush()
+        seen = [o.v for o in objs]; pks = [o.id for o in objs]
+    with db_session:
+        got = [E[pk].v for pk in pks]
+    with db_session:
+        rows = dict(select((e.id, e.v) for e in E if e.id >= pks[0] and e.id <= pks[-1])[:]) if pks else {}
+    return [(v, s_, g, rows.get(pk)) for v, s_, g, pk in zip(values, seen, got, pks)]
+
+def timedelta_dense(ctx, db, ents):
+    rng = ctx.rng
+    E6 = ents['timedelta6']
+    conv = E6.v.converters[0]
+    # (a) the conversion functions themselves on a large stream: py2sql -> float -> sql2py (SQLite holds a double unchanged)
+    direct = td_values(rng, ctx.scale(150000, 1000000))
+    suspects = []; formula_div = 0
+    for v in direct:
+        f = conv.py2sql(v)
+        if not (f == td_formula_as_coded(v)):
+            formula_div += 1
+            if formula_div <= 3:
+                ctx.divergence('SQLiteTimedeltaConverter.py2sql no longer computes days + (seconds + microseconds/1e6)/86400.0 bit for bit '
+                               '(the formula whose exactness below 65536 days the check relies on)', repr(v), model=td_formula_as_coded(v).hex(), impl=float(f).hex() if isinstance(f, float) else repr(f))
+        if conv.sql2py(f) != v: suspects.append(v)
+    ctx.count('timedelta-dense:direct-values', len(direct))
+    ctx.count('timedelta-dense:direct-bitwise-formula-mismatches', formula_div)
+    ctx.count('timedelta-dense:direct-roundtrip-failures', len(suspects))
+    ctx.count('timedelta-dense:direct-values-with-days>=32768', sum(1 for v in direct if abs(v) >= timedelta(days=32768)))
+    for i in range(0, len(direct), 50):          # register a 2 % sample individually, the rest through the counters above
+        ctx.case(['timedelta-direct', repr(direct[i])], kind='oracle:timedelta-dense:direct')
+    # (b) the property on real Pony: every suspect (smallest first) plus a fresh dense batch, through the database
+    suspects.sort(key=lambda v: (abs(v), v))
+    batch = suspects[:200] + td_values(rng, ctx.scale(4000, 40000))
+    reported = 0
+    for v, seen, got, viaq in td_batch(ctx, E6, batch, 'timedelta6'):
+        ctx.case(['timedelta-db', repr(v)], kind='oracle:timedelta-dense:db')
+        inp = {'attribute': 'Optional(timedelta, 6)', 'value': repr(v)}
+        if seen != got and reported < 5:
+            reported += 1
+            ctx.violation('a timedelta below 65536 days (where a float number of days is exact to the microsecond) is read back changed by a fresh session',
+                          inp, observed=repr(got), expected=repr(seen), key='timedelta-reload-differs:%r' % (v,))
+        elif viaq != got and reported < 5:
+            reported += 1
+            ctx.violation('a query returning the timedelta converts the column differently from loading the object', inp, observed=repr(viaq), expected=repr(got),
+                          key='timedelta-query-result:%r' % (v,))
+    # (c) the lower precisions: validate rounds the microseconds first, the stored float must give back the rounded value
+    for p in range(6):
+        E = ents['timedelta%d' % p]
+        for v, seen, got, viaq in td_batch(ctx, E, td_values(rng, ctx.scale(300, 3000)), 'timedelta%d' % p):
+            ctx.case(['timedelta-db', p, repr(v)], kind='oracle:timedelta-dense:db-precision')
+            exp_us = v.microseconds if p == 6 else (v.microseconds // 10 ** (6 - p)) * 10 ** (6 - p) if p else 0
+            if seen != got or viaq != got or seen != timedelta(v.days, v.seconds, exp_us):
+                ctx.violation('a timedelta of precision %d below 65536 days is not read back as the value seen after the flush' % p,
+                              {'attribute': 'Optional(timedelta, %d)' % p, 'value': repr(v)}, observed=[repr(got), repr(viaq)], expected=repr(seen),
+                              key='timedelta-reload-differs:p%d:%r' % (p, v))
+                break
+
 def run(ctx):
     micro_tie(ctx)
     wd = ponyutil.workdir('c07')
@@ -491,6 +583,7 @@ def run(ctx):
         witnesses(ctx, db, ents, rawcon)
         reqs, metas = run_values(ctx, db, ents, rawcon, cs)
         compare_model(ctx, reqs, metas)
+        timedelta_dense(ctx, db, ents)
         rawcon.close()
         foreign_texts(ctx, db, ents, path)
         db.disconnect()
